@@ -248,6 +248,10 @@ func m3CollidingPair(r *Rng) (map[string]string, map[string]string) {
 	if r.Chance(20) { // the literal pair of the property text
 		a, b = map[string]string{"a": "b=c"}, map[string]string{"a=b": "c"}
 	}
+	if r.Chance(20) { // one of the two has an EMPTY value where the other has no such key at all
+		k, v := fmt.Sprintf("region%d", r.Intn(9)), fmt.Sprintf("eu%d", r.Intn(9))
+		a, b = map[string]string{k + "=" + v: ""}, map[string]string{k: v + "="}
+	}
 	if r.Bool() {
 		a, b = b, a
 	}
